@@ -41,7 +41,11 @@ Fixpoint advance (delseq serving : N) (q : list (N * wkind)) (res : list (N * bo
     else (serving, r, Some (seq, op), res)
   end.
 
-Inductive oev := OIssue (op : wkind) | OComplete (ok : bool).
+(* OComplete ok retried: the Store operation of the write whose turn it is returns.  On an error the writer may give
+   the write up (its slot ends, the caller gets the error) or repeat it — admissible only INSIDE the slot: the write
+   stays the one at the Store and nothing else of the key moves ([retried] is an observation of the implementation's
+   choice; /repo HEAD never repeats). *)
+Inductive oev := OIssue (op : wkind) | OComplete (ok : bool) (retried : bool).
 
 Definition ow_step (w : owk) (e : oev) : owk :=
   match e with
@@ -57,7 +61,8 @@ Definition ow_step (w : owk) (e : oev) : owk :=
       {| q_next := seq + 1; q_serving := sv; q_delseq := ds; q_queue := q; q_infl := infl; q_val := q_val w;
          q_log := q_log w; q_res := res |}
     end
-  | OComplete ok =>
+  | OComplete ok retried =>
+    if negb ok && retried then w else
     match q_infl w with
     | None => w
     | Some (seq, op) =>
